@@ -91,7 +91,7 @@ struct E5 : Engine {
 		p["location"] = locs[r.below(3)]; p["expire"] = exps[r.below(3)]; p["storage"] = stors[r.below(2)]; p["enc"] = encs[r.below(13)]; p["key_seed"] = (int)r.below(1000);
 		p["timeout"] = 5 + (int)r.below(r.below(2) ? 40 : 4000); p["client_size_limit"] = (int)(r.below(2) ? 30 + r.below(200) : 2048); p["remove_unknown"] = (int)r.below(2);
 		p["p_file_short"] = r.below(4) == 0 ? (int)r.below(300) : 0; p["p_file_eintr"] = r.below(4) == 0 ? (int)r.below(100) : 0;
-		int nb = 1 + r.below(3); p["browsers"] = nb;
+		int nb = 1 + r.below(3); p["browsers"] = nb; p["conc"] = (int)(nb > 1 && r.below(3) == 0); p["strategy"] = (int)r.below(3); p["pct_depth"] = 1 + (int)r.below(3); p["pct_len"] = 50 + (int)r.below(2000);
 		J reqs = J::arr(); int n = 2 + r.below(thorough ? 30 : 12);
 		for(int i=0;i<n;i++){ J q = J::obj(); unsigned x = r.below(100);
 			if(x < 12){ q["kind"] = "tick"; unsigned y = r.below(10); int to = (int)p.geti("timeout"); q["s"] = y < 4 ? (int)r.below(to/10+2) : y < 7 ? (int)r.below(to) : y < 9 ? to + (int)r.below(3) - 1 : (int)r.below(10*to); }
@@ -218,8 +218,14 @@ struct E5 : Engine {
 		int def_timeout = v.get<int>("session.timeout"); int def_how = mode_of(v.get<std::string>("session.expire")); size_t climit = (size_t)v.get<int>("session.client_size_limit");
 		auto now = []{ return simk::now_us()/1000000; };
 		const J &reqs = plan.get("reqs");
-		for(size_t ri=0;ri<reqs.size() && res.ok;ri++){ const J &q = reqs.a[ri]; std::string kind = q.gets("kind"); int b = (int)(((q.geti("b") % nb) + nb) % nb); std::string where = "step#" + std::to_string(ri) + " " + kind + " browser " + std::to_string(b);
-			if(kind == "tick"){ simk::advance_us(std::max<int64_t>(0,std::min<int64_t>(q.geti("s"),100000000))*1000000); cnt["ticks"]++; continue; }
+		bool conc = plan.geti("conc") && nb > 1; int in_flight = 0;
+		// me == -2: one thread runs everything in plan order; otherwise browser `me` runs its own requests and me == -1 (the
+		// environment) runs clock advances, gc and attacker requests - all concurrently under the simulated scheduler
+		auto worker = [&](int me){
+		for(size_t ri=0;ri<reqs.size() && res.ok;ri++){ const J &q = reqs.a[ri]; std::string kind = q.gets("kind"); int b = (int)(((q.geti("b") % nb) + nb) % nb); if(me != -2){ bool browser_op = kind == "request" || kind == "close_browser"; if(browser_op ? b != me : me != -1) continue; }
+			std::string where = "step#" + std::to_string(ri) + " " + kind + " browser " + std::to_string(b);
+			if(kind == "tick"){ if(conc) simk::block([&]{ return in_flight == 0; },-1,"tick-between-requests");   // the clock moves between requests here; clock steps inside a request are exercised in sequential mode (tick_inside)
+				simk::advance_us(std::max<int64_t>(0,std::min<int64_t>(q.geti("s"),100000000))*1000000); cnt["ticks"]++; continue; }
 			if(kind == "gc"){ if(spyf){ spyf->gc_job(); cnt["gc"]++; } continue; }
 			if(kind == "close_browser"){ jars[b].close_browser(); cnt["browser_closed"]++; continue; }
 			Jar &jar = jars[b]; MSession &m = ms[b]; for(auto &j:jars) j.in_request = false;
@@ -234,6 +240,7 @@ struct E5 : Engine {
 				s.save(); continue; }
 			// ---------------- an ordinary request
 			cnt["requests"]++;
+			struct Flight { int &n; Flight(int &x) : n(x) { n++; } ~Flight(){ n--; } } flight(in_flight);
 			jar.begin_request();
 			std::string presented = jar.get_session_cookie(PREFIX);
 			session_interface s(pool,jar); bool loaded = false;
@@ -268,7 +275,7 @@ struct E5 : Engine {
 				else if(op == "on_server"){ bool x = o.geti("v"); s.on_server(x); on_server = x; cur["_s"].value = std::to_string((int)x); }
 				else if(op == "reset"){ s.reset_session(); reset = true; }
 			}
-			if(q.geti("tick_inside") > 0) simk::advance_us(q.geti("tick_inside")*1000000);
+			if(q.geti("tick_inside") > 0 && !conc) simk::advance_us(q.geti("tick_inside")*1000000);
 			bool want_server = location == "server" || (location == "both" && (on_server || false));
 			{ bool refused = false;
 			  try { s.save(); }
@@ -317,19 +324,23 @@ struct E5 : Engine {
 			for(auto &kv:m.data){ std::string cn = std::string(PREFIX) + "_" + kv.first; bool there = jar.jar.count(cn); if(kv.second.exposed && kv.second.value.empty()){ if(there){ res.fail("exposed-cookie-mismatch",where + ": exposed key '" + kv.first + "' has an empty value but a cookie is kept"); break; } continue; } if(kv.second.exposed && (!there || wire::urldecode(jar.jar[cn].value) != kv.second.value)){ res.fail("exposed-cookie-mismatch",where + ": exposed key '" + kv.first + "' is " + (there ? "stale" : "missing") + " in the browser's cookies"); break; } if(!kv.second.exposed && there && before.count(kv.first) && before[kv.first].exposed){ res.fail("exposed-cookie-mismatch",where + ": key '" + kv.first + "' is no longer exposed but its cookie remains"); break; } if(kv.second.exposed) cnt["exposed_checked"]++; }
 			if(res.ok) for(auto &kv:before) if(kv.second.exposed && !m.data.count(kv.first) && jar.jar.count(std::string(PREFIX) + "_" + kv.first)){ res.fail("exposed-cookie-mismatch",where + ": exposed key '" + kv.first + "' was removed from the session but its cookie remains"); break; }
 		}
+		};
+		if(!conc) worker(-2);
+		else { cnt["concurrent_runs"]++; std::vector<std::thread> thr; for(int b2=0;b2<nb;b2++) thr.emplace_back([&,b2]{ worker(b2); }); thr.emplace_back([&]{ worker(-1); }); for(auto &t:thr) t.join(); }
 		if(res.ok && !bad_sids.empty()) res.fail("malformed-id-reached-storage","identifier not of the issued form was used to address the storage: " + wire::esc(bad_sids[0].substr(0,60)));
 		cnt["storage_calls"] = (int64_t)storage_calls;
 	}
 
 	RunResult run(const J &plan) override {
 		RunResult res; std::map<std::string,int64_t> cnt;
-		simk::Params sp; sp.fault_seed = (uint64_t)plan.geti("fault_seed",1); sp.sched_seed = (uint64_t)plan.geti("sched_seed",1); sp.tick_us = 0; sp.text_trace = plan.geti("text_trace");
+		simk::Params sp; sp.fault_seed = (uint64_t)plan.geti("fault_seed",1); sp.sched_seed = (uint64_t)plan.geti("sched_seed",1); sp.tick_us = 0;
+		sp.strategy = (int)(((plan.geti("strategy") % 3) + 3) % 3); sp.pct_depth = (int)std::max<int64_t>(1,std::min<int64_t>(plan.geti("pct_depth",2),8)); sp.pct_len = (int)std::max<int64_t>(1,plan.geti("pct_len",500)); sp.text_trace = plan.geti("text_trace");
 		sp.p_file_short = (unsigned)std::max<int64_t>(0,std::min<int64_t>(plan.geti("p_file_short"),900)); sp.p_file_eintr = (unsigned)std::max<int64_t>(0,std::min<int64_t>(plan.geti("p_file_eintr"),500)); sp.file_short_min = 2;
 		simk::begin(sp);
 		try { if(plan.gets("prop") == "C05") run_c05(plan,res,cnt); else run_c06(plan,res,cnt); }
 		catch(std::exception const &e){ res.fail("harness-or-library-exception",std::string("unexpected exception: ") + e.what()); }
 		res.hash = simk::trace_hash() ^ runner::fnv(std::to_string(cnt["loads_accepted"]) + ":" + std::to_string(cnt["loads_live"]) + ":" + std::to_string(cnt["loads_empty"]));
-		res.counters["file_short_io"] = (long long)simk::stats().file_short; res.counters["file_eintr"] = (long long)simk::stats().file_eintr; res.counters["clock_jumps"] = (long long)simk::stats().clock_jumps;
+		res.counters["file_short_io"] = (long long)simk::stats().file_short; res.counters["file_eintr"] = (long long)simk::stats().file_eintr; res.counters["clock_jumps"] = (long long)simk::stats().clock_jumps; res.counters["thread_switches"] = (long long)simk::stats().switches; res.counters["mutex_contended"] = (long long)simk::stats().mutex_contended;
 		simk::end();
 		for(auto &kv:cnt) res.counters[kv.first] = (long long)kv.second;
 		bool nontrivial = plan.gets("prop") == "C05" ? (cnt["loads_accepted"] > 0 && cnt["loads_rejected"] > 0) : (cnt["loads_live"] > 0 && cnt["requests"] >= 3 && cnt["ticks"] > 0);
